@@ -31,6 +31,25 @@ PROP = Prop(
         "tolerances: round trips 1e-9 km / 1e-12 km/s relative scale, continuity 1e-6 rad (daily EOP steps are <= 1e-7 rad)",
     ],
 )
+
+
+def _pure(*names):
+    """The named conversion functions, wrapped so that every call also checks that no array argument was modified in place
+    (a conversion that mutates its input breaks the inverse pair for any caller that keeps using the array)."""
+    from resonaate.physics.transforms import methods
+
+    def wrap(fn, name):
+        def call(*args, **kw):
+            before = [np.array(a, copy=True) if isinstance(a, np.ndarray) else None for a in args]
+            out = fn(*args, **kw)
+            for i, (b, a) in enumerate(zip(before, args)):
+                if b is not None and not np.array_equal(b, a, equal_nan=True):
+                    raise Violation("input_mutated", f"{name} modified its argument {i} in place: {b.tolist()} -> {np.asarray(a).tolist()}")
+            return out
+
+        return call
+
+    return [wrap(getattr(methods, n), n) for n in names]
 PROP.selftest(geodesy.selftest)
 
 
@@ -87,7 +106,7 @@ def _ee_cases():
 def eci_ecef(c, rec):
     """eci2ecef/ecef2eci mutually inverse, rigid (norms, distances, angles), proper rotation, documented velocity term"""
     from resonaate.physics.transforms.eops import getEarthOrientationParameters
-    from resonaate.physics.transforms.methods import ecef2eci, eci2ecef
+    ecef2eci, eci2ecef = _pure('ecef2eci', 'eci2ecef')
 
     t = parse(c["t"])
     x = np.array(c["r"] + c["v"], dtype=float)
@@ -154,7 +173,7 @@ def _geo_cases():
 @PROP.clause("geodetic", strategy=_geo_cases, quick=4000, thorough=200000, shards=2)
 def geodetic(c, rec):
     """lla2ecef agrees with the reference-ellipsoid definition; ecef2lla inverts it everywhere incl. poles/equator"""
-    from resonaate.physics.transforms.methods import ecef2lla, lla2ecef
+    ecef2lla, lla2ecef = _pure('ecef2lla', 'lla2ecef')
 
     a, e2, _ = _earth()
     lat, lon, alt = c["lat"], c["lon"], c["alt"]
@@ -216,7 +235,7 @@ def _topo_cases():
 @PROP.clause("topocentric", strategy=_topo_cases, quick=4000, thorough=200000, shards=2)
 def topocentric(c, rec):
     """SEZ <-> ECEF inverse/orthonormal with zenith = ellipsoid normal; razel <-> SEZ inverse incl. the azimuth seam"""
-    from resonaate.physics.transforms.methods import ecef2sez, razel2sez, sez2ecef, sez2razel
+    ecef2sez, razel2sez, sez2ecef, sez2razel = _pure('ecef2sez', 'razel2sez', 'sez2ecef', 'sez2razel')
 
     lat, lon = c["lat"], c["lon"]
     x = np.array([k * c["rho"] for k in c["d"]] + c["v"], dtype=float)
@@ -266,7 +285,7 @@ def _chain_cases():
 @PROP.clause("razel_radec", strategy=_chain_cases, quick=800, thorough=30000, shards=4)
 def razel_radec(c, rec):
     """eci2razel equals independent topocentric geometry; razel<->radec mutually inverse; radec = direction of the ECI offset"""
-    from resonaate.physics.transforms.methods import eci2ecef, eci2radec, eci2razel, lla2eci, radec2razel, razel2radec
+    eci2ecef, eci2radec, eci2razel, lla2eci, radec2razel, razel2radec = _pure('eci2ecef', 'eci2radec', 'eci2razel', 'lla2eci', 'radec2razel', 'razel2radec')
 
     a, e2, _ = _earth()
     t = parse(c["t"])
@@ -276,7 +295,7 @@ def razel_radec(c, rec):
     d = np.array(c["d"])
     d = d if d.dot(u) > 0 else -d
     tgt_ecef = geodesy.lla2ecef(c["lat"], c["lon"], c["alt"], a, e2) + c["rho"] * d
-    from resonaate.physics.transforms.methods import ecef2eci
+    ecef2eci, = _pure('ecef2eci')
 
     tgt = ecef2eci(np.concatenate([tgt_ecef, np.zeros(3)]), t)
     tgt[3:] = c["v"]
@@ -332,7 +351,7 @@ def _sat_cases():
 @PROP.clause("rsw_ntw", strategy=_sat_cases, quick=3000, thorough=100000, shards=2)
 def rsw_ntw(c, rec):
     """RSW/NTW bases orthonormal and right handed with their defining alignments; eci2rsw and rsw2eci mutually inverse"""
-    from resonaate.physics.transforms.methods import eci2rsw, ntw2eci, rsw2eci
+    eci2rsw, ntw2eci, rsw2eci = _pure('eci2rsw', 'ntw2eci', 'rsw2eci')
 
     x = np.array(c["r"] + c["v"], dtype=float)
     y = np.array(c["r2"] + c["v2"], dtype=float)
@@ -368,7 +387,7 @@ def rsw_ntw(c, rec):
 
 # ---------------------------------------------------------------------------- clause: continuity in time
 def _q(t):
-    from resonaate.physics.transforms.methods import eci2ecef
+    eci2ecef, = _pure('eci2ecef')
 
     return np.column_stack([eci2ecef(np.eye(6)[k], t)[:3] for k in range(3)])
 
